@@ -10,6 +10,7 @@ import (
 	"strings"
 
 	"golang.org/x/net/html"
+	"golang.org/x/net/html/atom"
 
 	"github.com/titpetric/vuego/formatter"
 
@@ -98,10 +99,49 @@ type c19Tok struct {
 var rawOrPre = map[string]bool{"script": true, "style": true, "pre": true, "textarea": true}
 
 // c19Meaning projects a template body to what the property calls its meaning.
+// c19TableContext: a fragment that starts with a table-scoped element (a row partial, a cell
+// partial) is part of a table: the element it is parsed in. Comments and white space before the
+// first tag do not count, however long they are. nil = an ordinary fragment (body).
+func c19TableContext(body string) *html.Node {
+	s := body
+	for {
+		s = strings.TrimLeft(s, " \t\n\r\f")
+		if strings.HasPrefix(s, "<!--") {
+			if i := strings.Index(s, "-->"); i >= 0 {
+				s = s[i+3:]
+				continue
+			}
+		}
+		break
+	}
+	if !strings.HasPrefix(s, "<") {
+		return nil
+	}
+	end := 1
+	for end < len(s) && (s[end] >= 'a' && s[end] <= 'z' || s[end] >= 'A' && s[end] <= 'Z' || s[end] >= '0' && s[end] <= '9') {
+		end++
+	}
+	switch strings.ToLower(s[1:end]) {
+	case "td", "th":
+		return &html.Node{Type: html.ElementNode, Data: "tr", DataAtom: atom.Tr}
+	case "tr":
+		return &html.Node{Type: html.ElementNode, Data: "tbody", DataAtom: atom.Tbody}
+	case "thead", "tbody", "tfoot", "caption", "colgroup":
+		return &html.Node{Type: html.ElementNode, Data: "table", DataAtom: atom.Table}
+	case "col":
+		return &html.Node{Type: html.ElementNode, Data: "colgroup", DataAtom: atom.Colgroup}
+	}
+	return nil
+}
+
 func c19Meaning(body string) (toks []string, must []string, doctype string) {
 	nodes := htmlcmp.Parse(body)
 	if strings.Contains(strings.ToLower(body), "</html>") {
 		nodes = htmlcmp.ParseDocument(body) // tag names are case-insensitive: <HTML> ... </HTML> is a document
+	} else if in := c19TableContext(body); in != nil {
+		if ns, err := html.ParseFragment(strings.NewReader(body), in); err == nil {
+			nodes = ns
+		}
 	}
 	var text strings.Builder
 	flush := func() {
@@ -474,6 +514,15 @@ func c19Generate(tier string, emit func(src string)) {
 	} {
 		emit(src)
 	}
+	// what a fragment is a part of is decided by its first tag, however much comes before it:
+	// comments (a licence header) and white space of lengths around the usual buffer sizes
+	for _, frag := range []string{"<tr><td>x</td></tr>", "<td>x</td><td>y</td>", "<th scope=\"col\">h</th>", "<tbody><tr><td>x</td></tr></tbody>", "<thead><tr><th>h</th></tr></thead>", "<tfoot><tr><td>f</td></tr></tfoot>", "<caption>c</caption>", "<colgroup><col span=\"2\"></colgroup>", "<col span=\"2\">"} {
+		for _, n := range []int{8, 31, 32, 33, 50, 63, 64, 65, 100, 127, 128, 129, 255, 256, 257, 511, 512, 513, 1023, 1024, 1025, 4095, 4096, 4097, 9000} {
+			emit("<!-- " + strings.Repeat("c", n) + " -->\n" + frag)
+			emit(strings.Repeat(" ", n) + "\n" + frag)
+			emit("<!-- a -->" + strings.Repeat("\n", n) + "<!-- b -->" + frag)
+		}
+	}
 	// front-matter and documents
 	fms := []string{"", "---\ntitle: x\n---\n", "---\nlayout: base\nitems:\n  - a\n  - b\n---\n", "---\n---\n", "---\ntitle: \"a: b\"\n---\n\n"}
 	docs := []string{"<p>{{ title }}</p>", "<div class=\"a\">\n  <span>x</span>\n</div>\n", "<!DOCTYPE html>\n<html>\n<head>\n<title>T</title>\n</head>\n<body>\n<p>x</p>\n</body>\n</html>\n",
@@ -492,7 +541,7 @@ func init() {
 		Rule: "corpus part (finite, complete): every .vuego file under the repository and every ```html fence of docs/*.md and README.md; generated part: one element of 18 kinds x 13 attribute values (quotes, entities, operators, newlines, mustaches, JSON) x 8 texts; all parent/child pairs x text placements; pre / script / style whitespace; pre and textarea content from a grammar (every string of <=3 tokens over {newline, spaces, text, element, mustache}, bare and inside nested elements); front-matter x documents. " +
 			"oracle: Format(Format(x)) == Format(x); Format(x) parses to the same elements, attribute names and whitespace-collapsed values, the same non-whitespace text, the same mustache expressions, identical front-matter, doctype and pre/raw-text content. non-trivial = parser-stable input",
 		Bounds:      map[string]string{"quick": "corpus + generated fragments of depth <=2", "thorough": "corpus + generated fragments of depth <=3"},
-		Assumptions: []string{"golang.org/x/net/html in body-fragment mode (document mode when the source contains </html>) defines what a template means", "inputs that are not parser-stable are skipped and counted"},
+		Assumptions: []string{"golang.org/x/net/html in body-fragment mode (document mode when the source contains </html>; inside tr / tbody / table / colgroup when the first tag - after any comments and white space - is a table-scoped element) defines what a template means", "inputs that are not parser-stable are skipped and counted"},
 		Decode:      core.DecodeAs[c19Case](),
 		Enumerate: func(tier string, emit func(core.Case)) {
 			c19Corpus(func(name, src string) { emit(&c19Case{Part: "corpus", Name: name, Src: src}) })
